@@ -1370,6 +1370,14 @@ class Interp:
         return self.call(f, args, kwargs, ctx, node)
 
     def call(self, f, args, kwargs, ctx, node=None):
+        opaque_args = any(isinstance(a, tuple) and a and a[0] == "star" for a in args) or any(
+            k.startswith("**") for k in kwargs)
+        if opaque_args and not isinstance(f, tuple):
+            f = self.reify(f)
+        if opaque_args and isinstance(f, tuple):
+            targs = [self.as_term(a) for a in args]
+            tkw = {k: self.as_term(v) for k, v in kwargs.items()}
+            return norm_call(f, targs, tkw, self.prog)
         if isinstance(f, Closure):
             return self.apply_def(f.node, f.env, f.ctx, args, kwargs)
         if isinstance(f, BoundMethod):
